@@ -61,9 +61,29 @@ pub fn gen_coh_program(t: &mut Tape) -> Program {
         (0, Ty::Adt(pp, vec![tya.clone(), tyb.clone()])),
         (1, Ty::Adt(pp, vec![Ty::Adt(v, vec![p0.clone()]), p0.clone()])),
     ];
-    let n = 2 + t.choose(4);
-    for _ in 0..n {
-        let (np, head) = heads[t.choose(heads.len())].clone();
+    // shape knob: deep specialisation chains (every impl specialises the previous one), in shuffled order, without
+    // where-clauses or extra trait parameter so that the whole chain is accepted
+    let chain = extra == 0 && t.chance(25);
+    let chain_heads: Vec<(usize, Ty)> = if chain {
+        let vv = |x: Ty| Ty::Adt(v, vec![x]);
+        let mut c = if t.chance(60) {
+            vec![(1, p0.clone()), (1, vv(p0.clone())), (1, vv(vv(p0.clone()))), (1, vv(vv(vv(p0.clone())))), (0, vv(vv(vv(tya.clone()))))]
+        } else {
+            vec![(1, p0.clone()), (2, Ty::Adt(pp, vec![p0.clone(), p1.clone()])), (1, Ty::Adt(pp, vec![tya.clone(), p0.clone()])), (1, Ty::Adt(pp, vec![tya.clone(), vv(p0.clone())])), (0, Ty::Adt(pp, vec![tya.clone(), vv(tyb.clone())]))]
+        };
+        // drop one link at random (chains of 4 and 5), then shuffle the declaration order
+        if t.chance(50) {
+            let k = t.choose(c.len());
+            c.remove(k);
+        }
+        t.shuffle(&mut c);
+        c
+    } else {
+        vec![]
+    };
+    let n = if chain { chain_heads.len() } else { 2 + t.choose(4) };
+    for i in 0..n {
+        let (np, head) = if chain { chain_heads[i].clone() } else { heads[t.choose(heads.len())].clone() };
         let mut np = np;
         let mut args = vec![head];
         if extra == 1 {
@@ -78,7 +98,7 @@ pub fn gen_coh_program(t: &mut Tape) -> Program {
             });
         }
         let mut wcs = vec![];
-        if np > 0 {
+        if np > 0 && !chain {
             match t.choose(5) {
                 0 => wcs.push(TRef { tr: 1, args: vec![p0.clone()] }),
                 1 => wcs.push(TRef { tr: 2, args: vec![p0.clone()] }),
@@ -89,7 +109,7 @@ pub fn gen_coh_program(t: &mut Tape) -> Program {
                 _ => {}
             }
         }
-        let positive = !t.chance(8);
+        let positive = chain || !t.chance(8);
         p.impls.push(ImplDef { nparams: np, head: TRef { tr: 0, args }, wcs: if positive { wcs } else { vec![] }, positive, values: vec![], upstream: false });
     }
     p
@@ -118,7 +138,7 @@ impl Property for C19 {
         "C19"
     }
     fn rule(&self) -> String {
-        "case = generated program with 2-5 impls of one trait (optionally a marker trait or with a type parameter) whose headers are drawn from a pool with controlled relations — blanket `T`, `V<T>`, `V<V<T>>`, ground `V<A>`, `V<B>`, `V<V<A>>`, `A`, `B`, `P<T,U>`, `P<T,T>`, `P<A,T>`, `P<T,B>`, `P<A,B>`, `P<V<T>,T>` (identical headers, chains and diamonds of specialisation, partial overlaps) — with where-clause variants over helper traits and occasional negative impls. Oracle: LoweringDatabase::coherence() under both solvers returns Ok or Err, never panics; on Ok, over the bounded universe of concrete trait references (types of depth <= 3) with `applies(impl, ref)` from the reference evaluator: two impls (not both negative, trait not a marker) that both apply to some reference must both carry priorities and they must differ, and if A's applicable references are a strict subset of B's within the universe then priority(A) > priority(B). Non-trivial = program with >= 3 impls of the trait and at least one pair sharing an applicable reference; distinct by hash of the program.".into()
+        "case = generated program with 2-5 impls of one trait (optionally a marker trait or with a type parameter) whose headers are drawn from a pool with controlled relations — blanket `T`, `V<T>`, `V<V<T>>`, ground `V<A>`, `V<B>`, `V<V<A>>`, `A`, `B`, `P<T,U>`, `P<T,T>`, `P<A,T>`, `P<T,B>`, `P<A,B>`, `P<V<T>,T>` (identical headers, chains and diamonds of specialisation, partial overlaps; a quarter of the programs are pure specialisation chains of depth 4-5 in shuffled declaration order) — with where-clause variants over helper traits and occasional negative impls. Oracle: LoweringDatabase::coherence() under both solvers returns Ok or Err, never panics; on Ok, over the bounded universe of concrete trait references (types of depth <= 3) with `applies(impl, ref)` from the reference evaluator: two impls (not both negative, trait not a marker) that both apply to some reference must both carry priorities and they must differ, and if A's applicable references are a strict subset of B's within the universe then priority(A) > priority(B). Non-trivial = program with >= 3 impls of the trait and at least one pair sharing an applicable reference; distinct by hash of the program.".into()
     }
     fn assumptions(&self) -> Vec<String> {
         vec!["chalk may reject more than the bounded model would (it reasons over all compatible worlds); only accepted programs are judged for priorities".into()]
